@@ -58,6 +58,20 @@ type c10Wheel struct {
 	drained  []c10Fire
 	tick     int
 	baseline int
+	stampNs  int64 // driver goroutine only: the time value carried by the next tick (see stamp)
+}
+
+// stamp is the time value sent with tick number n. The statement counts ticks (deliveries on the ticker's
+// channel), not the values they carry, so the harness sends hostile ones: equal stamps, half an interval,
+// several intervals or a thousand intervals apart, and one going backwards (round 13: a wheel that "catches
+// up" by the time elapsed between two stamps scans several slots in one tick).
+func (w *c10Wheel) stamp(n int) time.Time {
+	jumps := [...]int64{1, 2, 0, 5, 1, -3, 1000, 1, 3}
+	w.stampNs += jumps[n%len(jumps)] * int64(c10Interval) / 1
+	if n%11 == 10 {
+		w.stampNs += int64(c10Interval) / 2
+	}
+	return time.Unix(1700000000, 0).Add(time.Duration(w.stampNs))
 }
 
 // c10Interval is the tick interval of the scenario being run (set by runC10 from the scenario).
@@ -115,8 +129,9 @@ func (w *c10Wheel) quiesce() bool {
 func (w *c10Wheel) doTick() bool {
 	w.mu.Lock()
 	w.tick++
+	n := w.tick
 	w.mu.Unlock()
-	w.tk.c <- time.Time{}
+	w.tk.c <- w.stamp(n)
 	return w.quiesce()
 }
 
@@ -327,7 +342,7 @@ func runC10(m *vk.M, idx int, sc c10Scenario) (fires int, ok bool) {
 				// callbacks of that tick until Stop has returned.
 				w.mu.Lock()
 				w.tick++
-				w.tk.c <- time.Time{}
+				w.tk.c <- w.stamp(w.tick)
 				w.tw.Stop()
 				w.mu.Unlock()
 			} else {
